@@ -168,17 +168,28 @@ def run(prop, cfg, tier, seed):
         mimpl = pm.stdout.decode().splitlines()
         # the same grammars through the Lean model of the analysis: its first graph is the one the leader marks of the
         # builder are held against (the builder's own graph too: either may show a cycle without a leader)
-        mmodel = [mid_check.split_model(x)[0] for x in core.run_model_lines("unicode 0", mcases)]
+        mfull = core.run_model_lines("unicode 0", mcases)
+        mmodel = [mid_check.split_model(x)[0] for x in mfull]
         accepted_lr = 0
-        for cl, il, ml in zip(mcases, mimpl, mmodel):
+        spec_uncovered = 0
+        for cl, il, ml, fl in zip(mcases, mimpl, mmodel, mfull):
             if il.split(" ", 3)[2:3] == ["ok1"]:
                 accepted_lr += 1
+                # the SPECIFICATION's graph has the edges a stale flag loses (findings D37 / D38): a cycle of it through no
+                # leader of the builder, while the builder's own graph is covered, is the listed finding D38 - counted, and
+                # replayed on the runtime by its witness; throw-free grammars only (the specification has no throw)
+                if " thr" not in cl and " rec " not in cl:
+                    sg = mid_check.spec_graph(fl)
+                    if sg and not mid_check.uncovered_cycle(il) and not mid_check.uncovered_cycle(il, graph_from=ml) \
+                            and mid_check.uncovered_cycle(il, graph=sg):
+                        spec_uncovered += 1
             cyc = mid_check.uncovered_cycle(il) or mid_check.uncovered_cycle(il, graph_from=ml)
             if cyc:
                 tool_fail.append({"tool": "pvmid", "kind": "cycle-without-leader", "mid_case": cl, "impl": il,
                                   "detail": "builder.PrepareGrammar accepts this grammar with -support-left-recursion although the cycle %s of its first graph passes through no leader rule: the generated parser re-enters these rules at the same offset without bound (C08_cycle_without_leader_has_no_ranking; with every cycle covered: C08_left_recursive_parse_terminates)" % " -> ".join(bytes.fromhex(x[1:]).decode("utf8", "replace") for x in cyc),
                                   "replay_cmd": "echo '<mid_case>' | /verif/build/bin/pvmid -run"})
-        tool_reports["pvmid-leaders"] = {"evaluations": len(mcases), "accepted_left_recursive": accepted_lr}
+        tool_reports["pvmid-leaders"] = {"evaluations": len(mcases), "accepted_left_recursive": accepted_lr,
+                                         "specification_cycles_through_no_builder_leader_D38": spec_uncovered}
 
     # ---- report
     nviol = 0
